@@ -52,7 +52,7 @@ NAME = "ResultsLoops"
 SOURCES = [D.SOURCES[1], D.SOURCES[2]]
 
 OUTCOMES = ["ok", "outOfRange", "clientError", "exception", "timeout"]
-LEAN_TY = {"Rat": "Rat", "Nat": "Nat", "Bool": "Bool", "Ids": "List Nat", "Assoc": "List (Nat × Rat)", "Fields": "Fields"}
+LEAN_TY = {"Rat": "Rat", "Nat": "Nat", "Bool": "Bool", "Ids": "List Nat", "Assoc": "List (Nat × Rat)", "Fields": "Fields", "Count": "Nat"}
 
 
 class Opaque(Exception):
@@ -166,6 +166,8 @@ class Tr:
             return acc, "Rat"
         if f == "len" and len(n.args) == 1 and not n.keywords:
             v, t = self.tr(n.args[0], env)
+            if t == "Count":  # a list of which only the length is known
+                return v, "Nat"
             if t not in ("Ids", "Assoc"):
                 raise Unsupported(f"len of a {t}")
             return f"{v}.length", "Nat"
@@ -277,6 +279,8 @@ class Tr:
             return f"({v} = true)", False
         if t in ("Ids", "Assoc"):
             return f"({v} ≠ [])", False
+        if t == "Count":
+            return f"((0 : Nat) = {v})", True
         if t == "Nat":
             return f"({v} = 0)", True
         raise Unsupported(f"truth value of a {t} (`{_src(n)[:60]}`)")  # a Power is always truthy: never tested in this code
@@ -287,6 +291,12 @@ class Tr:
             if isinstance(a_, ast.Call) and _src(a_.func) == "len" and len(a_.args) == 1 and isinstance(b_, ast.Constant) \
                     and isinstance(b_.value, int) and not isinstance(b_.value, bool):
                 v, t = self.tr(a_.args[0], env)
+                if t == "Count":
+                    k = (type(o_), b_.value)
+                    if k in ((ast.Gt, 0), (ast.NotEq, 0), (ast.GtE, 1)):
+                        return f"((0 : Nat) = {v})", True
+                    if k in ((ast.Eq, 0), (ast.Lt, 1), (ast.LtE, 0)):
+                        return f"((0 : Nat) = {v})", False
                 if t in ("Ids", "Assoc"):
                     k = (type(o_), b_.value)
                     if k in ((ast.Gt, 0), (ast.NotEq, 0), (ast.GtE, 1)):
@@ -748,7 +758,7 @@ def _battery(tree: ast.Module) -> dict[str, str]:
 
 
 # ------------------------------------------------------------------------------------------------ PVManager
-def _pv(tree: ast.Module) -> dict[str, str]:
+def _pv(tree: ast.Module, assume_data: bool = False) -> dict[str, str]:
     cls = D._find_class(tree, "PVManager")
     out: dict[str, str] = {}
     # =========================================================== _set_api_power
@@ -874,16 +884,18 @@ def _pv(tree: ast.Module) -> dict[str, str]:
     mroles = {f"len({working})": ("num", "Nat")}
     trm = Tr("fun", [], mroles)
     rest_mid = [s for s in mid if s is not sorts[0]]
-    out["pvAbort"] = trm.block(rest_mid, _env(), "  ")
+    out["pvAbort"] = trm.block(rest_mid, _env(**{working: ("num", "Count")}), "  ")
     # names bound between the loops that the allocation loop reads: only `num = len(working)` is known
     nums = [s.targets[0].id for s in rest_mid if isinstance(s, ast.Assign) and len(s.targets) == 1
             and isinstance(s.targets[0], ast.Name) and _src(s.value) == f"len({working})"]
-    aroles = {f"self._component_data_caches[{inv}].has_value()": ("hasValue", "Bool"),
+    # (assume_data: the tree specialised to an inverter that has data — what the model's allocation loop describes)
+    aroles = {f"self._component_data_caches[{inv}].has_value()": (("true", "Bool") if assume_data else ("hasValue", "Bool")),
               f"self._component_data_caches[{inv}].get().active_power_inclusion_lower_bound": ("bound", "Rat"),
               f"len({working})": ("num", "Nat")}
     aenv = _env(**{allocs: ("allocations", "Assoc"), rem: ("remaining", "Rat"), idx: ("idx", "Nat"), inv: ("invId", "Nat")})
     for nm in nums:
         aenv[nm] = ("num", "Nat")
+    aenv[working] = ("num", "Count")
     aenv["$alias"] = dict(aliases)
     if set(_assigned(aloop.body)) & {working, idx, inv}:
         raise Unsupported("distribute_power: the allocation loop changes its own iteration variables")
@@ -934,7 +946,7 @@ SHARE = "(remaining / ((((num - idx : Nat)) : Nat) : Rat))"
 
 def pv_loop_exprs(tree: ast.Module) -> dict[str, str]:
     """pvSkip / pvShare / pvAlloc from the leaves of the translated allocation step."""
-    tra: Tr = _pv(tree)["$alloc"]  # type: ignore[assignment]
+    tra: Tr = _pv(tree, assume_data=True)["$alloc"]  # type: ignore[assignment]
     zero = ("(assocSet allocations invId (0 : Rat))",)
     same = ("remaining", "(remaining - (0 : Rat))")
     conds = {path[0][0] for path, _, _ in tra.leaves if path}
